@@ -796,7 +796,7 @@ function `Φ` and every `P_A ∈ (0, 0.5]`.  Proved: for ANY strictly increasing
 hands to the root finder, `x ↦ |Φ(x) − P_A|`, vanishes exactly at the solutions of `Φ(x) = P_A`, there is at most
 one, and for a root `x` the returned value is `β = −x`; with the symmetry `Φ(−x) = 1 − Φ(x)` this gives
 `Φ(β) = 1 − P_A` and `β ≥ 0` for `P_A ≤ 1/2`.  Missing: that the `x` the code obtains IS the root for the standard
-normal `Φ`.  The code before the repair `tools/fixes/C09-compute-beta-quantile.diff` ran `scipy.optimize.root` (hybrid
+normal `Φ`.  The code before the repair /repo commit 763ab65 ran `scipy.optimize.root` (hybrid
 Powell from `x₀ = −0.6`) on that non-smooth residual, which does NOT return a root for every `P_A ∈ (0, 0.5]`
 (`RuntimeError` at `P_A = 0.4915868354632816`: finding `beta-root-search-fails`); the repaired code (the one modelled)
 takes `scipy.stats.norm.ppf(P_A)`.  That this special-function routine is `Φ⁻¹` is a runtime fact, measured by the
